@@ -285,6 +285,9 @@ FORALLStatement * FORALLStatement::parse(Parser& p, Context& ctx)
     t = p.pop();
     if (t->code == ')')
       throw ParseError(EXC_PARSE_MM_PARENTHESIS, t);
+    /* the iterator would replace the table it points into */
+    if (s->_exp->symbolId() != Expression::nid && ctx.getSymbol(s->_exp->symbolId()).name() == vname)
+      throw ParseError(EXC_PARSE_OTHER_S, "Cannot use the traversed table as iterator variable.", t);
     /* check the type if defined */
     const Type& exp_type = s->_exp->type(ctx);
     if (exp_type == Type::NO_TYPE)
